@@ -32,6 +32,11 @@ type Env struct {
 	// SkipCalls lists call heads (exprKey of the called function, e.g. "r.cluster.Stats().UpstreamRequestRetry.Inc") whose
 	// expression statements have no effect on the modelled state and are dropped. Any other expression statement is an error.
 	SkipCalls map[string]bool
+	// Arith (optional) renders an arithmetic operation "+ - * / %" on two rendered operands; nil = unbounded
+	// `(l op r)`. Used for fixed-width integer semantics (e.g. int32: wrap the result).
+	Arith func(op, l, r string) string
+	// Panic (optional): Lean expression a statement `panic(...)` is rendered to (terminal); "" = unsupported.
+	Panic string
 }
 
 func (env *Env) typeOf(v string) string {
@@ -47,6 +52,13 @@ func (env *Env) asc(v string) string {
 		return ""
 	}
 	return " : " + env.typeOf(v)
+}
+
+func (env *Env) arith(op, l, r string) string {
+	if env.Arith != nil {
+		return env.Arith(op, l, r)
+	}
+	return "(" + l + " " + op + " " + r + ")"
 }
 
 func exprKey(e ast.Expr) string {
@@ -128,7 +140,7 @@ func (env *Env) expr(e ast.Expr) (string, error) {
 			token.LSS: "<", token.LEQ: "≤", token.GTR: ">", token.GEQ: "≥", token.EQL: "=", token.NEQ: "≠",
 		}
 		if o, ok := op[x.Op]; ok {
-			return "(" + l + " " + o + " " + r + ")", nil
+			return env.arith(o, l, r), nil
 		}
 		if o, ok := cmp[x.Op]; ok {
 			return "(decide (" + l + " " + o + " " + r + "))", nil
@@ -199,9 +211,9 @@ func (env *Env) block(stmts []ast.Stmt, ind string) (string, error) {
 		switch x.Tok {
 		case token.ASSIGN, token.DEFINE:
 		case token.ADD_ASSIGN:
-			rhs = "(" + name + " + " + rhs + ")"
+			rhs = env.arith("+", name, rhs)
 		case token.SUB_ASSIGN:
-			rhs = "(" + name + " - " + rhs + ")"
+			rhs = env.arith("-", name, rhs)
 		default:
 			return "", fmt.Errorf("assign op %v", x.Tok)
 		}
@@ -223,7 +235,7 @@ func (env *Env) block(stmts []ast.Stmt, ind string) (string, error) {
 		if err != nil {
 			return "", err
 		}
-		return "let " + name + " := (" + name + " " + op + " 1)\n" + ind + k, nil
+		return "let " + name + " := " + env.arith(op, name, "1") + "\n" + ind + k, nil
 	case *ast.ReturnStmt:
 		var rs []string
 		for _, r := range x.Results {
@@ -280,6 +292,12 @@ func (env *Env) block(stmts []ast.Stmt, ind string) (string, error) {
 		// added for C17 (retry state): a call statement explicitly listed as effect-free for the model
 		if c, ok := x.X.(*ast.CallExpr); ok && env.SkipCalls[exprKey(c.Fun)] {
 			return env.block(rest, ind)
+		}
+		// added for C18: `panic(...)`, only when the caller said what a panic is rendered to
+		if c, ok := x.X.(*ast.CallExpr); ok && env.Panic != "" {
+			if id, ok := c.Fun.(*ast.Ident); ok && id.Name == "panic" {
+				return env.Panic, nil
+			}
 		}
 		return "", fmt.Errorf("unsupported expression statement %s", exprKey(x.X))
 	case *ast.RangeStmt:
